@@ -274,6 +274,6 @@ def run_shard(ctx):
                                 nshards=ctx.nshards, deadline_s=dl(0.6))
     stats.extra["exhaustive_sequences"] = stats.evaluations
     stats.extra["small_scope_complete"] = bool(complete)
-    core.hyp_search(strategy(thorough), ex, stats, max_examples=250 if thorough else 90, seed=core.hash64(ctx.seed, ID, ctx.shard),
+    core.hyp_search(strategy(thorough), ex, stats, max_examples=1500 if thorough else 90, seed=core.hash64(ctx.seed, ID, ctx.shard),
                     findings=ctx.findings, deadline_s=dl(1.0))
     return stats
